@@ -501,6 +501,25 @@ class Emitter:
             return "(%s, %s)" % (self.expr(a, cx), self.expr(b, cx))
         return "(%s %s %s)" % (self.expr(a, cx), op, self.expr(b, cx))
 
+    def e_CXXOperatorCallExpr(self, n, cx):
+        """only the implicitly defined copy assignment of a trivially copyable record: plain C struct assignment"""
+        callee, args = n["inner"][0], n["inner"][1:]
+        c = callee
+        while c["kind"] in ("ImplicitCastExpr", "ParenExpr"):
+            c = c["inner"][0]
+        rd = c.get("referencedDecl", {}) if c["kind"] == "DeclRefExpr" else {}
+        if rd.get("name") != "operator=" or len(args) != 2:
+            raise ExtractionError("unsupported overloaded operator %s in %s" % (rd.get("name"), cx.get("fn")))
+        f = None
+        try:
+            f = self.tu.func_of_decl(rd["id"])
+        except Exception:
+            f = None
+        if f is not None and f.body is not None and not getattr(f, "is_implicit", False) and not f.node.get("isImplicit"):
+            raise ExtractionError("user-provided operator= in %s" % cx.get("fn"))
+        self.rules["struct-assignment"] += 1
+        return "(%s = %s)" % (self.expr(args[0], cx), self.expr(args[1], cx))
+
     def e_CompoundAssignOperator(self, n, cx):
         a, b = n["inner"]
         return "(%s %s %s)" % (self.expr(a, cx), n["opcode"], self.expr(b, cx))
@@ -546,7 +565,8 @@ class Emitter:
             if sal >= al:
                 return
             self.rules["alignment-obligation"] += 1
-            cx.setdefault("pre_stmts", []).append('__CPROVER_assert(__CPROVER_POINTER_OFFSET(%s) %% %d == 0, "alignment: pointer cast to %s (alignment %d) inside a buffer whose base is suitably aligned");' % (e, al, tb, al))
+            # the source type guarantees only alignment `sal`: the object's base may sit at any multiple of it (a caller's byte buffer: anywhere)
+            cx.setdefault("pre_stmts", []).append('{ size_t jpv_base; __CPROVER_assume(jpv_base %% %d == 0); __CPROVER_assert((jpv_base + __CPROVER_POINTER_OFFSET(%s)) %% %d == 0, "alignment: pointer cast to %s (alignment %d) from a pointer whose type guarantees alignment %d only"); }' % (sal, e, al, tb, al, sal))
         except ExtractionError:
             return
 
